@@ -182,6 +182,12 @@ static const XMLCh  gEndComment[] =
     chDash, chDash, chCloseAngle, chNull
 };
 
+//--
+static const XMLCh  gDoubleDash[] =
+{
+    chDash, chDash, chNull
+};
+
 //<!DOCTYPE
 static const XMLCh  gStartDoctype[] =
 {
@@ -1160,6 +1166,14 @@ void DOMLSSerializerImpl::processNode(const DOMNode* const nodeToWrite, int leve
                 break;
 
             ensureValidString(nodeToWrite, nodeValue);
+
+            // [15] Comment ::= '<!--' ((Char - '-') | ('-' (Char - '-')))* '-->'
+            // the data can neither contain "--" nor end with '-'
+            if (XMLString::patternMatch(nodeValue, gDoubleDash) != -1 ||
+                (lent > 0 && nodeValue[lent - 1] == chDash))
+            {
+                reportError(nodeToWrite, DOMError::DOM_SEVERITY_FATAL_ERROR, XMLDOMMsg::SYNTAX_ERR);
+            }
 
             // Figure out if we want pretty-printing for this comment.
             // If this comment node does not have any element siblings
